@@ -63,6 +63,7 @@ type C13Line struct {
 	Dt               adt    `json:"dt"`
 	Fmt              afmt   `json:"fmt"`
 	Parsed           adt    `json:"parsed"`
+	ParsedStored     adt    `json:"parsed_stored"` // the same text read the way contact fields and has_date read it (a missing time is filled in from the clock)
 	Zone             string `json:"zone"`
 	OffsetHasSeconds bool   `json:"offset_has_seconds"`
 	Equiv            bool   `json:"equiv"`
@@ -259,6 +260,17 @@ func c13Values(args []string) error {
 					line.Ok = true
 					pt := p.Native().In(loc)
 					line.Parsed = adt{pt.Year(), int(pt.Month()), pt.Day(), pt.Hour(), pt.Minute(), pt.Second(), pt.Nanosecond() / 1000}
+					// the way a contact field (flows.FieldValues.Parse) and has_date read the same text: the rendered text
+					// has a time, so nothing of the clock (fixed at 13:14:15.123456) may show up in the value
+					dates.SetNowFunc(dates.NewFixedNow(time.Date(2021, 3, 4, 13, 14, 15, 123456000, time.UTC)))
+					ps, xerr2 := types.ToXDateTimeWithTimeFill(e, types.NewXText(line.Text))
+					dates.SetNowFunc(time.Now)
+					if xerr2 != nil {
+						line.Ok = false
+						return
+					}
+					st := ps.Native().In(loc)
+					line.ParsedStored = adt{st.Year(), int(st.Month()), st.Day(), st.Hour(), st.Minute(), st.Second(), st.Nanosecond() / 1000}
 					// '=' agrees with the canonical renderings: the same instant written with another offset, an instant
 					// that differs below the rendered precision, the value itself, and one a microsecond later
 					line.EqCanon = true
